@@ -53,6 +53,11 @@ func Attribute(m Mismatch, running string) string {
 			return "C01"
 		case has("!early", "!timing", "immature", "!era", "!phpast", "!wspast", "!nowindow"):
 			return "C08"
+		case has("!missedabovehost"):
+			if running == "C01" {
+				return "C01" // an accepted revision of this kind lets an expiry pay out more than is locked
+			}
+			return "C07"
 		case has("!sum", "!samern", "!missedup", "!coll", "!capdown", "!validsum", "!missedsum", "!wrongleaf", "!wrongdata", "!short", "!missedhigh"):
 			return "C07"
 		}
